@@ -58,7 +58,7 @@ func (b *exampleBuilder) buildExampleForObjectNode(node *internalSchema.ObjectNo
 
 	buf.WriteRune('{')
 	children := node.Children()
-	length := len(children)
+	first := true
 	for i, childNode := range children {
 		ex, err := b.Build(childNode)
 		if err != nil {
@@ -74,13 +74,16 @@ func (b *exampleBuilder) buildExampleForObjectNode(node *internalSchema.ObjectNo
 			return nil, err
 		}
 
+		// A skipped child must not leave a dangling separator behind.
+		if !first {
+			buf.WriteRune(',')
+		}
+		first = false
+
 		buf.WriteRune('"')
 		buf.Write(k)
 		buf.WriteString(`":`)
 		buf.Write(ex)
-		if i+1 != length {
-			buf.WriteRune(',')
-		}
 	}
 	buf.WriteRune('}')
 	return buf.Bytes(), nil
@@ -113,8 +116,8 @@ func (b *exampleBuilder) buildExampleForArrayNode(node *internalSchema.ArrayNode
 
 	buf.WriteRune('[')
 	children := node.Children()
-	length := len(children)
-	for i, childNode := range children {
+	first := true
+	for _, childNode := range children {
 		ex, err := b.Build(childNode)
 		if err != nil {
 			return nil, err
@@ -124,10 +127,12 @@ func (b *exampleBuilder) buildExampleForArrayNode(node *internalSchema.ArrayNode
 			continue
 		}
 
-		buf.Write(ex)
-		if i+1 != length {
+		if !first {
 			buf.WriteRune(',')
 		}
+		first = false
+
+		buf.Write(ex)
 	}
 	buf.WriteRune(']')
 	return buf.Bytes(), nil
